@@ -16,8 +16,23 @@ theorem Inv_atom (R : ViewRel) (s : PState) (F : KFs) (h : Inv R s F) (a : Atom)
   case neg => simp only [hg]; exact h
   simp only [hg, if_true]
   cases a with
-  | sync p => exact h
-  | syncDir => exact h
+  | sync p =>
+    simp only [Atom.rawOps, Atom.rawEff, krun_sync1]
+    cases p with
+    | mem fid =>
+      show Inv R (if fid = s.cur ∧ s.curOpen = true then _ else s) _
+      by_cases hc : fid = s.cur ∧ s.curOpen = true
+      · rw [if_pos hc]; exact Inv_of_eq R s _ F h (by constructor <;> rfl)
+      · rw [if_neg hc]; exact h
+    | manifest => exact Inv_of_eq R s _ F h (by constructor <;> rfl)
+    | sst id => exact Inv_ksync R s F h id
+    | vlog _ => exact h
+    | manifestRewrite => exact h
+    | keyRegistry => exact h
+    | keyRegistryRewrite => exact h
+  | syncDir =>
+    simp only [Atom.rawOps, Atom.rawEff, krun_syncDir1]
+    exact Inv_of_eq R s _ F h (by constructor <;> rfl)
   | zero p => exact h
   | vput k v =>
     simp only [Atom.rawOps, Atom.rawEff, krun_append1]
@@ -50,12 +65,14 @@ theorem Inv_atom (R : ViewRel) (s : PState) (F : KFs) (h : Inv R s F) (a : Atom)
     exact ⟨h1.logic, h1.manifest, h1.mem, h1.sst, h1.vlogNZ⟩
   | pushImm =>
     simp only [Atom.rawOps, Atom.rawEff, krun_nil]
-    have hg' : s.curOpen = true ∧ s.pending = [] := by simpa [Atom.guard] using hg
+    have hg' : s.curOpen = true ∧ s.pending = [] := by
+      simp only [Atom.guard, Bool.and_eq_true] at hg
+      exact ⟨hg.1.1, by simpa using hg.1.2⟩
     exact Inv_pushImm R s F h hg'.1 hg'.2
   | newMem =>
     simp only [Atom.rawOps, Atom.rawEff, krun_mkFile]
     have hg' : s.curOpen = false ∧ s.pending = [] := by simpa [Atom.guard] using hg
-    exact Inv_newMem R s F h hg'.1 hg'.2
+    exact Inv_of_eq R _ _ _ (Inv_newMem R s F h hg'.1 hg'.2) (by constructor <;> rfl)
   | mhdr =>
     simp only [Atom.rawOps, Atom.rawEff, krun_append1]
     have hg' : s.curOpen = true ∧ s.curHdr = false := by simpa [Atom.guard] using hg
@@ -63,7 +80,7 @@ theorem Inv_atom (R : ViewRel) (s : PState) (F : KFs) (h : Inv R s F) (a : Atom)
   | wput e =>
     simp only [Atom.rawOps, Atom.rawEff, krun_append1]
     have hg' : (s.curOpen = true ∧ s.curHdr = true) ∧ s.inflight.isSome = true := by simpa [Atom.guard] using hg
-    exact Inv_wput R s F h e hg'.1.1 hg'.1.2
+    exact Inv_of_eq R _ _ _ (Inv_wput R s F h e hg'.1.1 hg'.1.2) (by constructor <;> rfl)
   | fin =>
     simp only [Atom.rawOps, Atom.rawEff, krun_append1]
     cases hinf : s.inflight with
@@ -72,10 +89,15 @@ theorem Inv_atom (R : ViewRel) (s : PState) (F : KFs) (h : Inv R s F) (a : Atom)
       have hg' : (((s.curOpen = true ∧ s.curHdr = true) ∧ s.pending = t.ents) ∧ ¬ t.ents = []) ∧ ¬ t.ts = 0 := by
         simpa [Atom.guard, hinf] using hg
       have := Inv_fin R s F h t hinf hg'.1.1.1.1 hg'.1.1.1.2 hg'.1.1.2 hg'.1.2 hg'.2
-      simpa [PState.pts, hinf] using this
+      have hpts : s.pts = t.ts := by simp [PState.pts, hinf]
+      rw [hpts] at this
+      simp only [Option.map_some, Option.getD_some]
+      exact Inv_of_eq R _ _ _ this (by constructor <;> rfl)
   | ack =>
     simp only [Atom.rawOps, Atom.rawEff, krun_nil]
-    have hg' : s.acked < s.done := by simpa [Atom.guard] using hg
+    have hg' : s.acked < s.done := by
+      simp only [Atom.guard, Bool.and_eq_true] at hg
+      simpa using hg.1
     have hl := h.logic
     exact ⟨⟨hl.view, by show s.acked + 1 ≤ s.done; omega, hl.done_le, hl.infl⟩, h.manifest, h.mem, h.sst, h.vlogNZ⟩
   | kmk id =>
@@ -99,11 +121,11 @@ theorem Inv_atom (R : ViewRel) (s : PState) (F : KFs) (h : Inv R s F) (a : Atom)
     cases happ : applyMSet s.tset (kmsetChanges s) with
     | none => simp [Atom.guard, happ] at hg
     | some t' =>
-      have hst : ∀ o ∈ s.kout, o.stage = 2 ∧ aget o.id s.tset = none := by
+      have hst : ∀ o ∈ s.kout, o.stage = 3 ∧ aget o.id s.tset = none := by
         intro o ho
-        have : s.kout.all (fun o => o.stage == 2 && (aget o.id s.tset).isNone) = true := by
+        have : s.kout.all (fun o => o.stage == 3 && (aget o.id s.tset).isNone) = true := by
           simp only [Atom.guard, Bool.and_eq_true] at hg
-          exact hg.1.1.1.1.1.2
+          exact hg.1.1.1.1.1.1.1.1.2
         have := List.all_eq_true.mp this o ho
         simpa using this
       have hf5 : s.imm ≠ [] → 5 ≤ s.fpc → s.fsst ∉ s.kins := by
@@ -117,22 +139,26 @@ theorem Inv_atom (R : ViewRel) (s : PState) (F : KFs) (h : Inv R s F) (a : Atom)
           | cons _ _ => rfl
         simp [hie, h5, hin] at this
       have := Inv_kmset R s F h t' hg1 hst happ hf5
-      simpa [happ] using this
+      simp only [happ, Option.getD_some]
+      exact Inv_of_eq R _ _ _ this (by constructor <;> rfl)
   | kdel id =>
     simp only [Atom.rawOps, Atom.rawEff, krun_delFile]
-    have hg' : ((s.kdelq.contains id = true ∧ (aget id s.tset).isNone = true) ∧ s.flusherHolds id = false) ∧
-        s.kout.any (fun o => o.id == id) = false := by simpa [Atom.guard] using hg
-    exact Inv_kdel R s F h id hg'.1.1.2 hg'.1.2 hg'.2
+    have hg' : (((s.kdelq.contains id = true ∧ (aget id s.tset).isNone = true) ∧ s.flusherHolds id = false) ∧
+        s.kout.any (fun o => o.id == id) = false) ∧ s.mdirty = false := by simpa [Atom.guard] using hg
+    exact Inv_kdel R s F h id hg'.1.1.1.2 hg'.1.1.2 hg'.1.2
 
 theorem Inv_flushAtom (R : ViewRel) (s s' : PState) (F : KFs) (h : Inv R s F) (ops : List FsOp)
     (hf : flushAtom s = some (ops, s')) : Inv R s' (krun F ops) := by
   unfold flushAtom at hf
   cases hi : s.imm with
-  | nil => simp [hi] at hf
+  | nil => rw [hi] at hf; cases hf
   | cons k rest =>
-    simp only [hi] at hf
+    rw [hi] at hf
+    simp only at hf
+    have hne : s.imm ≠ [] := by rw [hi]; simp
+    have hhead : s.imm.head? = some k := by rw [hi]; rfl
     by_cases hE : (s.memEnts k).isEmpty = true
-    · simp only [hE, if_true] at hf
+    · rw [if_pos hE] at hf
       injection hf with hf; injection hf with h1 h2
       subst h1; subst h2
       rw [krun_delFile]
@@ -140,66 +166,66 @@ theorem Inv_flushAtom (R : ViewRel) (s s' : PState) (F : KFs) (h : Inv R s F) (o
         intro e he
         have : s.memEnts k = [] := by simpa using hE
         rw [this] at he; simp at he)
-      exact this
-    · simp only [hE] at hf
-      have hne : s.imm ≠ [] := by rw [hi]; simp
-      have hhead : s.imm.head? = some k := by rw [hi]; rfl
+      exact Inv_of_eq R _ _ _ this (by constructor <;> rfl)
+    · rw [if_neg hE] at hf
       -- case analysis on the flusher's program counter
       rcases Nat.lt_or_ge s.fpc 6 with hlt | hge
       · have : s.fpc = 0 ∨ s.fpc = 1 ∨ s.fpc = 2 ∨ s.fpc = 3 ∨ s.fpc = 4 ∨ s.fpc = 5 := by omega
         rcases this with hp | hp | hp | hp | hp | hp
-        · simp only [hp] at hf
+        · rw [hp] at hf
           injection hf with hf; injection hf with h1 h2
           subst h1; subst h2
-          rw [krun_mkFile, ← hi]
-          exact Inv_flush0 R s F h hne hp
-        · simp only [hp] at hf
+          rw [krun_mkFile]
+          exact Inv_of_eq R _ _ _ (Inv_flush0 R s F h hne hp) (by constructor <;> first | rfl | exact hi.symm)
+        · rw [hp] at hf
+          simp only at hf
           by_cases hgd : (aget s.fsst s.tset).isNone = true ∧ (!s.kout.any (fun o => o.id == s.fsst)) = true
           · rw [if_pos hgd] at hf
             injection hf with hf; injection hf with h1 h2
             subst h1; subst h2
-            rw [krun_append1, ← hi]
+            rw [krun_append1]
             have hko : ∀ o ∈ s.kout, o.id ≠ s.fsst := by
               intro o ho e
               have : s.kout.any (fun o => o.id == s.fsst) = true := List.any_eq_true.mpr ⟨o, ho, by simp [e]⟩
               have h2 := hgd.2; rw [this] at h2; cases h2
-            exact Inv_flush1 R s F h k rest hi hp (by simpa using hgd.1) hko
+            exact Inv_of_eq R _ _ _ (Inv_flush1 R s F h k rest hi hp (by simpa using hgd.1) hko)
+              (by constructor <;> first | rfl | exact hi.symm)
           · rw [if_neg hgd] at hf; cases hf
-        · simp only [hp] at hf
+        · rw [hp] at hf
           injection hf with hf; injection hf with h1 h2
           subst h1; subst h2
-          rw [← hi]
-          exact Inv_flushMid R s F h (if s.cfg.dirSyncFix then 3 else 4) (by omega) (by omega)
-            (by split <;> omega) (by split <;> omega)
-        · simp only [hp] at hf
+          exact Inv_of_eq R _ _ _ (Inv_flushMid R s F h (if s.cfg.dirSyncFix then 3 else 4) (by omega) (by omega)
+            (by split <;> omega) (by split <;> omega)) (by constructor <;> first | rfl | exact hi.symm)
+        · rw [hp] at hf
           injection hf with hf; injection hf with h1 h2
           subst h1; subst h2
-          rw [← hi]
-          exact Inv_flushMid R s F h 4 (by omega) (by omega) (by omega) (by omega)
-        · simp only [hp] at hf
-          by_cases hgd : (aget s.fsst s.tset).isNone = true
+          exact Inv_of_eq R _ _ _ (Inv_flushMid R s F h 4 (by omega) (by omega) (by omega) (by omega))
+            (by constructor <;> first | rfl | exact hi.symm)
+        · rw [hp] at hf
+          simp only at hf
+          by_cases hgd : (aget s.fsst s.tset).isNone = true ∧ (!s.mdirty) = true
           · rw [if_pos hgd] at hf
             injection hf with hf; injection hf with h1 h2
             subst h1; subst h2
-            rw [krun_append1, ← hi]
-            exact Inv_flush4 R s F h k rest hi hp (by simpa using hgd)
+            rw [krun_append1]
+            exact Inv_of_eq R _ _ _ (Inv_flush4 R s F h k rest hi hp (by simpa using hgd.1))
+              (by constructor <;> first | rfl | exact hi.symm)
           · rw [if_neg hgd] at hf; cases hf
-        · simp only [hp] at hf
+        · rw [hp] at hf
           injection hf with hf; injection hf with h1 h2
           subst h1; subst h2
-          rw [← hi]
-          exact Inv_flush5 R s F h hp
+          exact Inv_of_eq R _ _ _ (Inv_flush5 R s F h hp) (by constructor <;> first | rfl | exact hi.symm)
       · -- fpc ≥ 6: the WAL is deleted
-        have hf' : some (delFile (.mem k), { s with imm := rest, fpc := 0 }) = some (ops, s') := by
+        have hf' : some (delFile (.mem k), { s with imm := rest, fpc := 0, pendU := (k, s.fsst) :: s.pendU }) = some (ops, s') := by
           have : ∃ m, s.fpc = m + 6 := ⟨s.fpc - 6, by omega⟩
           obtain ⟨m, hm⟩ := this
-          simp only [hm] at hf
+          rw [hm] at hf
           exact hf
         injection hf' with hf'; injection hf' with h1 h2
         subst h1; subst h2
         rw [krun_delFile]
         obtain ⟨h5a, h5b⟩ := h.sst.flush5 k hhead (by omega)
-        apply Inv_flushDel R s F h k rest hi
+        refine Inv_of_eq R _ _ _ (Inv_flushDel R s F h k rest hi ?_) (by constructor <;> rfl)
         intro e he
         cases hg : aget s.fsst s.tset with
         | none => rw [hg] at h5a; cases h5a
@@ -241,7 +267,7 @@ theorem Inv_step (R : ViewRel) (s : PState) (F : KFs) (h : Inv R s F) (x : Sched
         have := hc.2.2.2.2.2.1
         intro id hid
         exact (List.all_eq_true.mp this) id hid
-      exact Inv_compactStart R s F h _ ins outs hins hx
+      exact Inv_of_eq R _ _ _ (Inv_compactStart R s F h (compactProg ((List.range outs.length).map (· + s.nextSst)) ins) ins outs hins hx) (by constructor <;> rfl)
     · exact h
   | w =>
     simp only [PState.step]
